@@ -17,7 +17,8 @@ def srcCfg : Cfg :=
     closeStreams := JediModel.Gen.C14.cleanupCloseStreams.filterMap Stream.ofName?
     closePerStream := JediModel.Gen.C14.cleanupClosePerStream
     closeCatch := JediModel.Gen.C14.cleanupCloseCatch
-    usedSetBeforeRun := JediModel.Gen.C14.usedSetBeforeRun }
+    usedSetBeforeRun := JediModel.Gen.C14.usedSetBeforeRun
+    listenCatch := JediModel.Gen.C14.listenRunCatch }
 
 /-- the close loop of `_cleanup_process` as read from the source has the try/except INSIDE the loop,
 lists all three pipe objects and its clause names a base of `BrokenPipeError`.  (This is the
@@ -307,5 +308,88 @@ theorem used_after_run_reuses_stale_state :
     ∧ ((exec srcCfg (planOf [(0, 2, .raises "ValueError")]) {}
       [.newState 1, .sysPath, .call 1, .drop 1, .newState 1, .call 1]).1.procs.map (·.created)) = [2] := by
   decide
+
+
+
+/-! ### "the helper raises": which exceptions raised while a request is served end the helper
+
+`Listener.listen` wraps `self._run(*payload)` in one `try`; what its except clause (read from the
+source: `Gen.C14.listenRunCatch`) catches is sent back as an exception reply and re-raised by
+`_send` in the user's process, everything else leaves the request loop and ends the helper. -/
+
+/-- Tie to the source: the except clause of `Listener.listen` catches no class that is not an
+`Exception` (CPython's hierarchy: `SystemExit`, `KeyboardInterrupt`, `GeneratorExit`,
+`asyncio.CancelledError`, direct subclasses of `BaseException`).  Stops building as soon as the
+clause names `SystemExit`, `KeyboardInterrupt`, `BaseException`, ... or becomes a bare `except:`. -/
+theorem listen_catches_only_exceptions (cls : String) (h : isException cls = false) :
+    caught cls srcCfg.listenCatch = false := by
+  -- `isException cls` unfolds to `caught cls ["Exception"]`: the clause of the source is that list
+  exact h
+
+/-- non-vacuity: the classes the harness injects -/
+example : isException "SystemExit" = false ∧ isException "KeyboardInterrupt" = false
+    ∧ isException "GeneratorExit" = false ∧ isException "CancelledError" = false
+    ∧ isException "VerifFatal" = false ∧ isException "BaseException" = false
+    ∧ isException "ValueError" = true ∧ isException "BrokenPipeError" = true := by decide
+
+/-- Tie to the source, other direction: every `Exception` is reported back (the helper survives an
+ordinary exception of the introspected code). -/
+theorem listen_reports_every_exception (cls : String) (h : isException cls = true) :
+    listenFault srcCfg cls = .raises cls := by
+  have hm : "Exception" ∈ mro cls := by
+    simpa [isException, caught] using h
+  unfold listenFault
+  simp [caught_of_mem hm (by decide : srcCfg.listenCatch.contains "Exception" = true)]
+
+/-- **A `BaseException` that is no `Exception`, raised inside the helper while it serves a request, is a
+contained death**: for every class `cls` that is no `Exception`, every plan in which the request in
+flight is hit by "the helper raises `cls`" (`listenFault` with the except clause of the source), every
+request and every not-yet-crashed helper with sound bookkeeping: `_send` raises `InternalError` - not
+`cls` -, the helper is marked crashed, the finalizer has run and the process is reaped. -/
+theorem helper_raise_fatal_contained_partial (plan : Plan) (hp : TruncCaught srcCfg plan) (p : Proc) (r : Req)
+    (hf : p.Fin) (hs : p.Sound) (hc : p.crashed = false) (cls : String) (hcls : isException cls = false)
+    (hplan : plan p.idx p.nreq = listenFault srcCfg cls) :
+    (send srcCfg plan p r).2 = .raised "InternalError" ∧ (send srcCfg plan p r).1.crashed = true
+      ∧ (send srcCfg plan p r).1.reaped = true ∧ (send srcCfg plan p r).1.armed = false := by
+  have spec := crash_one_failure_partial plan hp p r hf hs
+  have hfat : listenFault srcCfg cls = .raisesFatal := by
+    unfold listenFault
+    simp [listen_catches_only_exceptions cls hcls]
+  have hd : (plan p.idx p.nreq).isDeath = true := by rw [hplan, hfat]; rfl
+  have hcr := (spec.death_iff hc).mpr hd
+  have hst := spec.fin.crashedStarted hcr
+  exact ⟨spec.internal_iff.mpr hcr, hcr, (spec.fin.disarmed hst.1 hst.2).1, hst.2⟩
+
+/-- non-vacuity: a plan in which request 3 of every helper start raises `SystemExit` inside the helper -/
+example : TruncCaught srcCfg (fun _ k => if k = 3 then listenFault srcCfg "SystemExit" else .none) := by
+  intro h k cls hc
+  dsimp only at hc
+  split at hc
+  · have : listenFault srcCfg "SystemExit" = .raisesFatal := by decide
+    rw [this] at hc; cases hc
+  · cases hc
+
+/-- the except clause `except (Exception, SystemExit)` ("the helper survives a sys.exit() of
+introspected code"), as a literal -/
+def listenSystemExitCfg : Cfg :=
+  { dumpCatch := ["BrokenPipeError"], loadCatch := ["EOFError", "pickle.UnpicklingError"],
+    envCatch := ["Exception"], listenCatch := ["Exception", "SystemExit"] }
+
+/-- Counter-witness for that clause (kernel-checked): the first request of a Script makes the
+introspected code call `sys.exit()` inside the helper; the helper ships the `SystemExit` back and
+`_send` re-raises it in the user's process (`Out.remote "SystemExit"`: the query tries to exit the
+host application), nothing is marked crashed.  With the clause of the source the same plan ends in
+`InternalError`, a crashed, reaped helper, and the next Script gets a new one. -/
+theorem systemexit_caught_in_listen_escapes :
+    (exec listenSystemExitCfg (planOf [(0, 1, listenFault listenSystemExitCfg "SystemExit")]) {}
+        [.newState 0, .call 0]).2 = [.ok, .remote "SystemExit"]
+    ∧ ((exec listenSystemExitCfg (planOf [(0, 1, listenFault listenSystemExitCfg "SystemExit")]) {}
+        [.newState 0, .call 0]).1.procs.map fun p => p.crashed) = [false]
+    ∧ (exec srcCfg (planOf [(0, 1, listenFault srcCfg "SystemExit")]) {}
+        [.newState 0, .call 0, .drop 0, .newState 1, .call 1]).2
+        = [.ok, .raised "InternalError", .ok, .ok, .ok]
+    ∧ ((exec srcCfg (planOf [(0, 1, listenFault srcCfg "SystemExit")]) {}
+        [.newState 0, .call 0, .drop 0, .newState 1, .call 1]).1.procs.map fun p => (p.crashed, p.reaped))
+        = [(false, false), (true, true)] := by decide
 
 end JediModel.Props.C14
